@@ -98,6 +98,10 @@ func ParseFloat(b []byte) (float64, int) {
 		// 0 * math.Pow10(out of range) is NaN
 		return f, i
 	}
+	if exp < -290 && -640 < exp {
+		// keep the intermediate value normal: powers of ten below 1e-308 are subnormal and have few significant bits
+		return f * math.Pow10(int(exp)+290) * 1e-290, i
+	}
 	h := f * math.Pow10(int(-mantExp))
 	h *= math.Pow10(int(expExp))
 	if h == 0.0 || math.IsInf(h, 0) {
